@@ -244,20 +244,32 @@ func (y *sys) projSet(u *unstructured.Unstructured) string {
 		keep = append(keep, x)
 	}
 	_ = unstructured.SetNestedSlice(c.Object, keep, "status", "conditions")
-	// uids are identities of incarnations (history), like the uids in owner references (projRefs):
-	// status.remotePhases is compared by phase object name
 	if archived { // frozen at archival like the conditions: which phases had been reached by then is history
 		unstructured.RemoveNestedField(c.Object, "status", "remotePhases")
 	}
 	if rps, ok, _ := unstructured.NestedSlice(c.Object, "status", "remotePhases"); ok {
 		for _, x := range rps {
 			if m, ok := x.(map[string]interface{}); ok {
-				m["uid"] = ""
+				// the uid itself is the identity of an incarnation (history); what is state is whether the
+				// entry refers to the phase object that exists now (the next revision's adoption check
+				// recognises the objects of this revision's delegated phases by exactly this uid)
+				m["uid"] = y.rpState(u.GetNamespace(), fmt.Sprint(m["name"]), fmt.Sprint(m["uid"]))
 			}
 		}
 		_ = unstructured.SetNestedSlice(c.Object, rps, "status", "remotePhases")
 	}
 	return y.setStr(c)
+}
+
+// rpState: "live" when the ObjectSetPhase of that name exists with that uid, "stale" otherwise.
+func (y *sys) rpState(ns, name, uid string) string {
+	for _, u := range y.env.Store.Snapshot() {
+		if u.GroupVersionKind().Group == verifphase.PkoGroup && strings.HasSuffix(u.GetKind(), "ObjectSetPhase") &&
+			u.GetNamespace() == ns && u.GetName() == name && string(u.GetUID()) == uid {
+			return "live"
+		}
+	}
+	return "stale"
 }
 
 func (s Scn) rounds() int {
@@ -510,7 +522,18 @@ func Disturb(r *rand.Rand, base Scn, nFaults, nDrift int) Scn {
 	for d := 0; d < nDrift; d++ {
 		i := r.Intn(len(s.Steps) + 1)
 		ds := []Step{driftStep(r, s)}
-		if ds[0].Env[0].Op == "reown" {
+		if pns := s.phaseNames(); len(pns) > 0 && r.Intn(5) == 0 {
+			// a third party deletes the phase object of a delegated phase: its controller tears the phase's
+			// objects down, the ObjectSet creates a new phase object (new uid), which creates the objects again
+			ds = []Step{{Op: "delPhase", Set: pick(r, pns), Drift: true}}
+			// ... not while a revision is paused: a paused revision does not roll the phase out again (C09)
+			for j, st := range s.Steps {
+				if st.Op == "lifecycle" && st.Value == "Paused" && i > j {
+					i = r.Intn(j + 1)
+					break
+				}
+			}
+		} else if ds[0].Env[0].Op == "reown" {
 			// ... and only while every revision is still alive: once a revision is deleted or archived its
 			// teardown must NOT touch an object it no longer controls (C05), so the object would stay behind
 			for j, st := range s.Steps {
